@@ -1,4 +1,5 @@
 import AlgoVerif.Common
+import AlgoVerif.Spec.C01
 /-!
 # Model of `symboltable/{bst,avl,red_black}.go` (C01 and C15)
 
@@ -67,11 +68,6 @@ end Tree
 open Tree
 
 /-! ## traversal (shared `_traverse`) -/
-
-/-- `generic.TraverseOrder`; `other` = any value outside the eight constants -/
-inductive Order where
-  | vlr | vrl | lvr | rvl | lrv | rlv | ascending | descending | other
-  deriving DecidableEq, Repr, Inhabited
 
 /-- `f() && g()` on state-passing visitors -/
 @[inline] def andThen {σ : Type} (f g : σ → Bool × σ) : σ → Bool × σ := fun s =>
@@ -370,11 +366,10 @@ def avlDelete (cmp : K → K → Int) : Tree K V → K → Outcome (Tree K V × 
       match l, r with
       | nil, _ => .ok (r, some v)
       | _, nil => .ok (l, some v)
-      | _, node rl rk rv _ _ rc _ => do
+      | _, node rl rk rv _ _ _ _ => do
+        -- m := n; n = _min(m.right); n.right, _ = _deleteMin(m.right); n.left = m.left
         let (mk, mv) := minOf rl rk rv
         let (r', _) ← avlDeleteMin r
-        -- the colour field of the min node is irrelevant for AVL; keep the right child's for definiteness
-        let _ := rc
         let n' ← avlBalance (avlFix l mk mv false r')
         pure (n', some v)
 
@@ -715,49 +710,6 @@ def selectVisit (kind : Kind) (cmp : K → K → Int) (p : K → V → Bool) (k 
 def selectMatch (kind : Kind) (cmp : K → K → Int) (p : K → V → Bool) (t : Tree K V) :
     Outcome (Tree K V) :=
   (traverse .vlr (selectVisit kind cmp p) t (.ok nil)).2
-
-/-- One API call.  The state is a pair of tables `(a, b)`: calls act on `a`; `swap` exchanges them (so
-that histories can build both operands of `Equal`); `selectMatch`/`partitionMatch` store the (first)
-table they return in `b`. -/
-inductive Op (K V : Type) where
-  | put (k : K) (v : V)
-  | delete (k : K)
-  | deleteMin
-  | deleteMax
-  | deleteAll
-  | swap
-  | size
-  | isEmpty
-  | height
-  | get (k : K)
-  | min
-  | max
-  | floor (k : K)
-  | ceiling (k : K)
-  | select (i : Int)
-  | rank (k : K)
-  | range (lo hi : K)
-  | rangeSize (lo hi : K)
-  | all
-  | traverse (o : Order) (limit : Nat)
-  | equal
-  | anyMatch (p : K → V → Bool)
-  | allMatch (p : K → V → Bool)
-  | firstMatch (p : K → V → Bool)
-  | selectMatch (p : K → V → Bool)
-  | partitionMatch (p : K → V → Bool)
-
-/-- what a call returns -/
-inductive Out (K V : Type) where
-  | unit
-  | bool (b : Bool)
-  | nat (n : Nat)
-  | int (i : Int)
-  | optV (o : Option V)
-  | optKV (o : Option (K × V))
-  | list (l : List (K × V))
-  | list2 (a b : List (K × V))
-  deriving Repr
 
 abbrev State (K V : Type) := Tree K V × Tree K V
 
